@@ -79,6 +79,49 @@ pub fn long_runs(ctx: &Ctx, p: &str, name: &str, entry: &str, n: usize, make: im
     });
 }
 
+/// Sizes spanning orders of magnitude inside ONE history: a buffer that is kept between calls and grown, shrunk, released or
+/// re-used according to the size of what went through it shows only when a small argument FOLLOWS a large one (or the other
+/// way round) on the same thread. `make(size)` is the operation for an argument of that size; every ordered pair (a, b) of
+/// distinct sizes is run as a, b, a, b on one fresh thread.
+pub fn size_ladder(thorough: bool) -> Vec<usize> {
+    let mut v = vec![0usize, 1, 55, 56, 136, 1000, 4096, 65_535, 65_536, 300_000, (1 << 20) - 40, 1 << 20, (1 << 20) + 100, (1 << 21) + 7];
+    if thorough { v.extend([(1 << 22) + 1, (1 << 24) + 1]); }
+    v
+}
+pub fn size_runs(ctx: &Ctx, p: &str, name: &str, entry: &str, sizes: &[usize], make: impl Fn(usize) -> Op) {
+    let ops: Arc<Vec<Op>> = Arc::new(sizes.iter().map(|n| make(*n)).collect()); let n = sizes.len() as u64; let sizes: Vec<usize> = sizes.to_vec();
+    let bound = format!("argument sizes {sizes:?}: every ordered pair (a, b) of distinct sizes run as a, b, a, b on one fresh thread: every result is the reference result of its own argument whatever size went before");
+    ctx.sweep(name, &bound, n * n, |i| {
+        let (a, b) = ((i / n) as usize, (i % n) as usize); if a == b { ctx.eval("size-run:same-size-skipped"); return; }
+        let order = vec![a, b, a, b]; let (ops2, ord2) = (ops.clone(), order.clone());
+        let got: Vec<Result<Outcome, String>> = std::thread::Builder::new().stack_size(16 << 20).spawn(move || ord2.iter().map(|k| guard(|| (ops2[*k].check)())).collect()).expect("spawn").join().unwrap_or_else(|_| vec![Err("thread died".into())]);
+        let replay = json!({"sweep": name, "index": i, "entry": entry, "sizes_in_order": order.iter().map(|k| sizes[*k]).collect::<Vec<_>>()});
+        ctx.sample(name, || replay.clone());
+        let class = |x: usize| match sizes[x] { 0..=55 => "0..=55", 56..=65_535 => "56..=65535", 65_536..=1_048_575 => "64Ki..1Mi", _ => ">=1Mi" };
+        let shape = format!("size-run:{}-then-{}", class(a), class(b));
+        for (step, r) in got.iter().enumerate() {
+            match r {
+                Err(pn) => { ctx.eval(format!("{shape}:panic")); ctx.panic_violation(format!("{p}:size-run:{shape}:panic@{}", panic_site(pn)), format!("operation {} of the run ({}) panics: {pn}", step + 1, ops[order[step]].label), replay); return; }
+                Ok(Err(m)) => { ctx.eval(format!("{shape}:step-differs")); ctx.violation(format!("{p}:size-run:{shape}:differs-from-reference"), format!("operation {} of the run ({}, after sizes {:?}): {m}", step + 1, ops[order[step]].label, order[..step].iter().map(|k| sizes[*k]).collect::<Vec<_>>()), replay); return; }
+                Ok(Ok(_)) => {}
+            }
+        }
+        ctx.eval(format!("{shape}:all-agree"));
+    });
+}
+pub fn c10_sized(seed: u64) -> impl Fn(usize) -> Op { move |n| { let m = explore::filler_bytes(seed, 0x51CE + n as u64, n); let want = eth::eip191_digest(&m);
+    op(format!("personal-message digest of {n} bytes"), move || { let got = hdwallet::message::EthereumMessage(&m[..]).signing_message().0; if got == want { Ok("digest") } else { Err(format!("digest {} instead of {}", explore::hex(&got), explore::hex(&want))) } }) } }
+pub fn c06_sized(seed: u64) -> impl Fn(usize) -> Op { let keys = crate::c06::keys(); move |n| { let mut tx = txjson::template(if n % 2 == 0 { Kind::Eip1559 } else { Kind::Legacy }, true); tx.data = explore::filler_bytes(seed, 0x51CF + n as u64, n); let text = txjson::tx_json(&tx, Spell::Auto).to_text(); let key = keys[0];
+    op(format!("sign and encode a transaction with {n} bytes of calldata"), move || { let curve = Curve::new(); match observe_tx(&text, &Signer::Key(&key)) { Err(p) => Err(format!("panics: {p}")), Ok(Err(e)) => Err(format!("rejected: {e}")), Ok(Ok(o)) => match compare_tx(&curve, &tx, &o, Some(&key)) { None => Ok("signed"), Some((k, what)) => Err(format!("{k}: {what}")) } } }) } }
+pub fn c08_sized(seed: u64) -> impl Fn(usize) -> Op { use crate::tdcheck::{simple_doc, sv}; move |n| { let body = explore::filler_bytes(seed, 0x51D0 + n as u64, n);
+    let d = simple_doc(vec![("Note".into(), sv(&[("text", "string"), ("blob", "bytes"), ("n", "uint256")]))], "Note", J::obj(vec![("text", J::Str(body.iter().map(|b| (b'a' + b % 26) as char).collect())), ("blob", J::Str(format!("0x{}", explore::hex(&body)))), ("n", J::n("7"))]));
+    let text = d.to_json().to_text(); let (class, _) = eip712::evaluate(&d);
+    op(format!("typed data with a string and a bytes value of {n} bytes"), move || match (crate::tdcheck::observe(&text), &class) { (Err(p), _) => Err(format!("panics: {p}")), (Ok(Err(e)), _) => Err(format!("a well-typed document is rejected: {e}")),
+        (Ok(Ok((ds, mh, dg))), Class::Accept(w)) | (Ok(Ok((ds, mh, dg))), Class::Unc(w)) => if ds == w.domain_separator && mh == w.message_hash && dg == w.digest { Ok("hashed") } else { Err(format!("digest {} instead of {}", explore::hex(&dg), explore::hex(&w.digest))) },
+        (Ok(Ok(_)), Class::Reject) => Err("reference refuses".into()) }) } }
+pub fn c02_sized(seed: u64) -> impl Fn(usize) -> Op { move |n| { let t = text_of(&crate::c01::valid_indices(seed, 12, 0x51D1, None), " "); let pass: String = explore::filler_bytes(seed, 0x51D2 + n as u64, n).iter().map(|b| (b'!' + b % 90) as char).collect(); let want = bip39::seed(&t, &pass);
+    op(format!("seed with a passphrase of {n} ASCII characters"), move || match Mnemonic::from_phrase(&t).map(|m| *m.seed(&pass)) { Err(e) => Err(format!("valid phrase rejected: {e}")), Ok(s) if s[..] == want[..] => Ok("seed"), Ok(s) => Err(format!("seed {} instead of {}", explore::hex(&s[..8]), explore::hex(&want[..8]))) }) } }
+
 fn phrases(seed: u64) -> (Vec<usize>, Vec<usize>, Vec<usize>) {
     let a = crate::c01::valid_indices(seed, 12, 900, None);
     let mut a2 = a.clone(); a2[11] = bip39::complete_last(&a[..11], a[11] ^ 0x400); // same first 11 words, another valid last word
@@ -124,9 +167,15 @@ pub fn c03_ops(seed: u64) -> Vec<Op> {
 pub fn c04_ops() -> Vec<Op> {
     let curve = Curve::new(); let n = secp::n();
     let ks: Vec<(&str, U256)> = vec![("1", U256::ONE), ("2", U256::ONE.adc(&U256::ONE).0), ("n-1", n.sbb(&U256::ONE).0), ("ganache#0", U256::from_hex("4f3edf983ac636a65a842ce7c78d9aa706d3b113bce9c46f30d7d21715b23b1d")), ("0", U256([0; 4])), ("n", n)];
-    ks.into_iter().map(|(l, k)| { let want = if k.is_zero() || k >= n { None } else { let pt = curve.mul_g(&k).unwrap(); Some((curve.uncompressed(&pt).to_vec(), eth::eip55(&eth::address_of_point(&pt)))) };
+    let mut v: Vec<Op> = ks.into_iter().map(|(l, k)| { let want = if k.is_zero() || k >= n { None } else { let pt = curve.mul_g(&k).unwrap(); Some((curve.uncompressed(&pt).to_vec(), eth::eip55(&eth::address_of_point(&pt)))) };
         op(format!("address and public key of secret {l}"), move || match (PrivateKey::new(k.to_be()).map(|x| (x.public().encode_uncompressed().to_vec(), x.address().to_string())), &want) {
-            (Ok(g), Some(w)) if g == *w => Ok("key"), (Ok(g), _) => Err(format!("address {} instead of {}", g.1, want.as_ref().map(|w| w.1.clone()).unwrap_or("a refusal".into()))), (Err(_), None) => Ok("refused"), (Err(e), Some(_)) => Err(format!("valid secret refused: {e}")) }) }).collect()
+            (Ok(g), Some(w)) if g == *w => Ok("key"), (Ok(g), _) => Err(format!("address {} instead of {}", g.1, want.as_ref().map(|w| w.1.clone()).unwrap_or("a refusal".into()))), (Err(_), None) => Ok("refused"), (Err(e), Some(_)) => Err(format!("valid secret refused: {e}")) }) }).collect();
+    // byte strings of other lengths: refused, or the key of the same big-endian integer - whatever was given before
+    for (l, b) in [("the 31-byte encoding of 1", { let mut b = vec![0u8; 31]; b[30] = 1; b }), ("the single byte 01", vec![1u8]), ("33 bytes: 00 followed by the encoding of 2", { let mut b = vec![0u8; 33]; b[32] = 2; b }), ("16 bytes of ff", vec![0xff; 16])] {
+        let val = refmodel::nat::Nat::from_be_bytes(&b);
+        v.push(op(format!("PrivateKey::new on {l}"), move || match PrivateKey::new(&b[..]).map(|x| x.secret()) { Err(_) => Ok("refused"), Ok(sec) => if U256::from_nat(&val).map_or(false, |x| !x.is_zero() && x < secp::n() && x.to_be() == sec) { Ok("same-integer") } else { Err(format!("a {}-byte string is taken as key {}, not the same big-endian integer", b.len(), explore::hex(&sec))) } }));
+    }
+    v
 }
 pub fn tx_ops() -> Vec<Op> {
     let keys = crate::c06::keys();
